@@ -654,6 +654,22 @@ def ob_commit(ob, tier, seed):
     return res
 
 
+def ob_publish(ob, tier, seed):
+    from . import publishw
+    funcs, mir_s, mir_lines = dump_mir("akd")
+    res = publishw.run_obligation(ob, tier, seed, funcs)
+    res.setdefault("extra", {})["akd_mir_dump_s"] = mir_s
+    if res["verdict"] == "fail":
+        rp = run_native_bin("native_commitfail")
+        if rp["status"] == "reproduced":
+            os.makedirs(REPLAYS, exist_ok=True)
+            path = os.path.join(REPLAYS, "C10_%s.json" % ob["id"].replace(".", "_"))
+            json.dump({"property": "C10", "obligation": ob["id"], "kind": "commit", "failed": res.get("failures"), "native": rp.get("lines")}, open(path, "w"), indent=1)
+            rp["path"] = path
+        res["replay"] = rp
+    return res
+
+
 def ob_glue(ob, tier, seed):
     from . import histglue
     funcs, mir_s, mir_lines = dump_mir("akd_core")
@@ -670,7 +686,7 @@ def ob_glue(ob, tier, seed):
     return res
 
 
-RUNNERS = {"commit": ob_commit, "glue": ob_glue, "txn": ob_txn, "epochreads": ob_epochreads, "writer": ob_writer, "validate": ob_validate, "m1": ob_m1, "m2": ob_m2, "m4": ob_m4, "m5": ob_m5, "m6": ob_m6, "spec64": ob_spec64}
+RUNNERS = {"commit": ob_commit, "publish": ob_publish, "glue": ob_glue, "txn": ob_txn, "epochreads": ob_epochreads, "writer": ob_writer, "validate": ob_validate, "m1": ob_m1, "m2": ob_m2, "m4": ob_m4, "m5": ob_m5, "m6": ob_m6, "spec64": ob_spec64}
 
 
 def run_obligation(ob, tier, seed):
